@@ -58,7 +58,7 @@ def boundary_values(T):
     return None
 
 
-PLACEMENTS = ["global", "local-const", "local-mut", "inline-arg", "nested", "with-locals", "via-helper", "in-struct-literal"]
+PLACEMENTS = ["global", "global-typed", "local-const", "local-mut", "inline-arg", "nested", "with-locals", "via-helper", "in-struct-literal"]
 
 
 def make_cases(T, tid, quick):
@@ -85,6 +85,10 @@ def make_cases(T, tid, quick):
             sp = T.spell()
             if placement == "global":
                 decls.append(f"G{tag} : {sp} : comptime {{ {lit} }};")
+                src = f"G{tag}"
+            elif placement == "global-typed":
+                # the block's own type already is the annotated type (no implicit conversion of the result is involved)
+                decls.append(f"G{tag} : {sp} : comptime {{ t : {sp} = {lit}; t }};")
                 src = f"G{tag}"
             elif placement == "local-const":
                 body.append(f"c : {sp} : comptime {{ {lit} }};")
